@@ -87,6 +87,7 @@ func (f *Gt) Call(s *slip.Scope, args slip.List, depth int) slip.Object {
 		case slip.Complex:
 			slip.TypePanic(s, depth, "numbers", arg, "real")
 		}
+		target = args[pos]
 	}
 	return slip.True
 }
